@@ -58,6 +58,16 @@ func sanitizeName(name string) string {
 	return name
 }
 
+// labelName returns the JavaScript label for the Go label with the given name.
+// The label "s" belongs to the loop that dispatches the cases of a flattened
+// function, so a Go label of that name gets out of its way.
+func labelName(name string) string {
+	if name == "s" {
+		return "s$"
+	}
+	return sanitizeName(name)
+}
+
 // Archive contains intermediate build outputs of a single package.
 //
 // This is a logical equivalent of an object file in traditional compilers.
